@@ -720,6 +720,12 @@ def _vector(pr, raw):
     for s in pr['segments']:
         cands.append(('path', s))
     cands.append(('path', '/'.join(pr['segments'])))
+    import unicodedata
+    for kind, text in list(cands):
+        for form in ('NFKC', 'NFKD'):
+            n = unicodedata.normalize(form, text)
+            if n != text:
+                cands.append((kind, n))
     best = None
     low = raw.lower()
     for kind, text in cands:
@@ -876,7 +882,42 @@ def _trav(target):
     return out
 
 
-ATTACK_VALUES = sorted(set(
+# Unicode look-alike / compatibility forms of path syntax: any later normalisation (NFKC / NFKD, case folding,
+# "best fit" transcoding) of a name that was made safe earlier turns them into real separators and dot segments
+FW_SLASH, FW_BACKSLASH, FW_DOT, FW_PERCENT = '\uff0f', '\uff3c', '\uff0e', '\uff05'
+ONE_DOT, TWO_DOT, ELLIPSIS, DIV_SLASH, FRAC_SLASH = '\u2024', '\u2025', '\u2026', '\u2215', '\u2044'
+_LA_SLASHES = [FW_SLASH, FW_SLASH, DIV_SLASH, FRAC_SLASH, FW_BACKSLASH]
+_LA_DOTDOTS = [TWO_DOT, TWO_DOT, FW_DOT * 2, ONE_DOT * 2, '.' + ONE_DOT, '..', ELLIPSIS]
+
+
+def _lookalike(target, ups=(2, 3, 4, 8)):
+    out = []
+    for up in ups:
+        for sl, dd, forms in ((FW_SLASH, TWO_DOT, 'xlp'), (FW_SLASH, FW_DOT * 2, 'xp'), (FW_SLASH, '..', 'x'),
+                              (DIV_SLASH, TWO_DOT, 'x'), (FRAC_SLASH, ONE_DOT * 2, 'x'), (FW_BACKSLASH, TWO_DOT, 'x')):
+            trav = (sl + dd) * up + sl + target
+            if 'x' in forms:
+                out.append('x' + trav)                     # x／‥／‥／bait
+            if 'l' in forms:
+                out.append(trav)                           # ／‥／‥／bait
+            if 'p' in forms:
+                out.append(TIME_VALUES[0] + trav)          # valid prefix
+    return out
+
+
+LOOKALIKE_VALUES = sorted(set(
+    _lookalike('bait') + _lookalike('x', ups=(3,)) + [
+        TWO_DOT, FW_DOT * 2, ONE_DOT * 2, ELLIPSIS, FW_SLASH, FW_BACKSLASH, DIV_SLASH, FRAC_SLASH,
+        TWO_DOT + FW_SLASH, FW_SLASH + TWO_DOT, 'a' + FW_SLASH + 'b', 'a' + FW_SLASH + TWO_DOT + FW_SLASH + 'b',
+        FW_PERCENT + '2e' + FW_PERCENT + '2e' + FW_PERCENT + '2fbait', '..' + FW_PERCENT + '2f..' + FW_PERCENT + '2fbait',
+        'x' + FW_SLASH + '..' + FW_SLASH + '..' + FW_SLASH + '..' + FW_SLASH + '{ROOTREL}',
+        'x' + (FW_SLASH + TWO_DOT) * 14 + FW_SLASH + '{ROOTREL}' + FW_SLASH + 'bait',
+        ELLIPSIS + FW_SLASH + ELLIPSIS + FW_SLASH + 'bait', 'X' + FW_SLASH + TWO_DOT + FW_SLASH + TWO_DOT,
+        '\u2100', '\u2101', '\u2105',      # a/c, a/s, c/o: NFKC yields an ASCII '/'
+        '\ufe52\ufe52\ufe68bait', '\u3002\u3002' + FW_SLASH + 'bait', '\u017f', '\u212a' + FW_SLASH + TWO_DOT,
+    ]))
+
+ATTACK_VALUES = sorted(set(LOOKALIKE_VALUES +
     _trav('bait') + _trav('x') + _trav('cache_data/c_secret_EPSG900913') + [
         '..', '../', '../..', '/..', '/', '//', '.', './', 'a//b', 'a/b', 'a/./b', 'a/../b', '/abs/path', '/etc',
         '/etc/passwd', '{ROOT}/bait/secret.txt', '../../bait', '../../../bait', '../c_secret_EPSG900913',
@@ -900,11 +941,17 @@ LAYER_NAMES = []   # filled from the configuration on first use
 GRID_NAMES = ['GLOBAL_MERCATOR', 'EPSG900913', 'EPSG3857', 'GLOBAL_GEODETIC', 'EPSG4326', 'GLOBAL_WEBMERCATOR', 'dim']
 LAYER_ATTACKS = ['secret/../tc', '../tc', 'tc/..', 'tc/../secret', 'tc\x00', 'tc%2f..%2fsecret', 'c_secret_EPSG900913',
                  'TC', 'tc ', 'tc,', ',tc', 'tc,,secret', 'nosuchlayer', '', '.', '..', 'tc_dim_EPSG900913', 'tc_EPSG900913',
-                 '\u00fc', 'A' * 3000, 'tc/0/0/0', 'bait', '{ROOT}/bait', 'app', 'second']
+                 '\u00fc', 'A' * 3000, 'tc/0/0/0', 'bait', '{ROOT}/bait', 'app', 'second',
+                 'tc' + FW_SLASH + TWO_DOT + FW_SLASH + 'secret', TWO_DOT + FW_SLASH + 'tc', 'secret' + FW_SLASH + TWO_DOT + FW_SLASH + 'tc',
+                 '\uff54\uff43', 't\uff43', 'tc' + FW_DOT, 'tc' + DIV_SLASH + TWO_DOT, 'tc' + FW_BACKSLASH + TWO_DOT + FW_BACKSLASH + 'secret',
+                 '\uff53\uff45\uff43\uff52\uff45\uff54', 'tc\uff3f\uff44\uff49\uff4d', 'c_secret' + '\uff3f' + 'EPSG900913']
 APP_NAMES = ['app', 'second']
 APP_ATTACKS = ['..', '.', '../outside', '..%2foutside', '%2e%2e%2foutside', 'outside', 'app.yaml', 'app%00', 'app\x00',
                'APP', 'app ', '\u00fc', '..\\outside', 'conf', 'A' * 300, '{ROOT}/outside', 'second.yaml', '', 'app/..',
-               '....', 'app.', '.app']
+               '....', 'app.', '.app',
+               TWO_DOT + FW_SLASH + 'outside', TWO_DOT, FW_DOT * 2, 'app' + FW_SLASH + TWO_DOT + FW_SLASH + 'outside',
+               TWO_DOT + DIV_SLASH + 'outside', TWO_DOT + FW_BACKSLASH + 'outside', '\uff41\uff50\uff50', 'a\uff50p',
+               'app' + FW_DOT + 'yaml', FW_DOT * 2 + FW_PERCENT + '2foutside', ONE_DOT * 2 + FW_SLASH + 'outside']
 
 # /demo/static/<name> is joined to the template directory of the mapproxy package: enough ../ to reach / and
 # down again into the deployment (text bait, a bait tile, the foreign configuration), plus generic forms
@@ -917,7 +964,12 @@ STATIC_ATTACKS = [_UP + '{ROOTREL}/bait/secret.txt', 'site.css/' + _UP + '{ROOTR
                   '..%2f..%2f..%2fversion.py', '.../x', '....//....//version.py', 'site.css/../../../../version.py',
                   '..\\..\\..\\version.py', '{ROOT}/bait/secret.txt', '/{ROOTREL}/bait/secret.txt', '/etc/passwd',
                   'site.css\x00', '\x00', '', '.', '..', 'A' * 3000, '%2e%2e/%2e%2e/%2e%2e/version.py',
-                  '\uff0e\uff0e/\uff0e\uff0e/version.py']
+                  '\uff0e\uff0e/\uff0e\uff0e/version.py',
+                  (TWO_DOT + FW_SLASH) * 16 + '{ROOTREL}' + FW_SLASH + 'bait' + FW_SLASH + 'secret.txt',
+                  (TWO_DOT + '/') * 16 + '{ROOTREL}/bait/secret.txt', ('..' + FW_SLASH) * 16 + '{ROOTREL}' + FW_SLASH + 'bait/secret.txt',
+                  (FW_DOT * 2 + '/') * 16 + '{ROOTREL}/bait/secret.txt', (ONE_DOT * 2 + DIV_SLASH) * 16 + '{ROOTREL}/bait/secret.txt',
+                  'site.css' + FW_SLASH + (TWO_DOT + FW_SLASH) * 16 + '{ROOTREL}/outside.yaml', TWO_DOT + FW_BACKSLASH + 'version.py',
+                  FW_PERCENT + '2e' + FW_PERCENT + '2e/version.py']
 
 MERC = 20037508.342789244
 
@@ -938,6 +990,12 @@ def _q(pairs, mode):
     if mode == 'full':
         def enc(text):
             return ''.join('%%%02X' % b for b in text.encode('utf-8', 'surrogatepass'))
+    elif mode == 'rawutf8':
+        # the UTF-8 bytes unescaped, as a server hands them over in QUERY_STRING (latin-1 decoded); only what
+        # would break the query syntax is percent-encoded
+        def enc(text):
+            raw = text.encode('utf-8', 'surrogatepass').decode('latin-1')
+            return ''.join('%%%02X' % ord(c) if (c in '&=%+#;' or ord(c) <= 0x20 or ord(c) == 0x7f) else c for c in raw)
     else:
         safe = '/:,' if mode == 'std' else ''
 
@@ -946,8 +1004,8 @@ def _q(pairs, mode):
 
     def enc_ph(text):
         return ''.join(part if _PLACEHOLDER.fullmatch(part) else enc(part) for part in _PLACEHOLDER.split(text))
-    return '&'.join('%s=%s' % (enc_ph(k) if mode == 'full' else urllib.parse.quote(k, safe='{}', errors='surrogatepass'),
-                               enc_ph(v)) for k, v in pairs)
+    return '&'.join('%s=%s' % (enc_ph(k) if mode in ('full', 'rawutf8') else
+                               urllib.parse.quote(k, safe='{}', errors='surrogatepass'), enc_ph(v)) for k, v in pairs)
 
 
 def _strategies():
@@ -1154,7 +1212,7 @@ def _strategies():
             k, v = pairs[draw(st.integers(0, len(pairs) - 1))]
             pairs.append((k.lower(), draw(st.sampled_from(ATTACK_VALUES))))
             used.append('duplicate-param')
-        mode = draw(st.sampled_from(['std', 'std', 'min', 'full']))
+        mode = draw(st.sampled_from(['std', 'std', 'std', 'min', 'full', 'rawutf8']))
         c = {'kind': kind, 'path': path, 'qs': _q(pairs, mode), 'app': 'single'}
         if draw(st.integers(0, 4)) == 0:
             c['app'] = 'multi'
@@ -1211,6 +1269,22 @@ def random_shard(shard, nshards, seed, tier):
     return st_
 
 
+def _pq(text):
+    return urllib.parse.quote(text, safe='')
+
+
+MATRIX_VECTORS = (
+    ('value', '&TIME=a/../../../../x'),
+    ('name', '&DIM_a/../../../../x=1'),
+    # compatibility forms: fullwidth solidus + two dot leader / fullwidth full stops / ASCII dots, division slash
+    ('value-fullwidth-slash-two-dot-leader', '&TIME=' + _pq('x' + (FW_SLASH + TWO_DOT) * 4 + FW_SLASH + 'x')),
+    ('name-fullwidth-slash-two-dot-leader', '&' + _pq('DIM_x' + (FW_SLASH + TWO_DOT) * 4 + FW_SLASH + 'x') + '=1'),
+    ('value-fullwidth-slash-fullwidth-dots', '&ELEVATION=' + _pq('0' + (FW_SLASH + FW_DOT * 2) * 4 + FW_SLASH + 'x')),
+    ('value-fullwidth-slash-ascii-dots', '&TIME=' + _pq(TIME_VALUES[0] + (FW_SLASH + '..') * 4 + FW_SLASH + 'x')),
+    ('value-division-slash-one-dot-leaders', '&TIME=' + _pq('x' + (DIV_SLASH + ONE_DOT * 2) * 4 + DIV_SLASH + 'x')),
+)
+
+
 def escape_matrix(stats):
     """Deterministic enumeration: the canonical traversal through a dimension VALUE and through a dimension
     NAME against every configured layer (WMS GetMap, fresh deployment).  Records which layers / backends
@@ -1226,9 +1300,9 @@ def escape_matrix(stats):
             if layer == 'second':
                 continue
             row = {'backend': env.backends[env.layer_cache[layer]], 'declares_dimensions': layer.endswith('_dim')}
-            for vec, extra in (('value', '&TIME=a/../../../../x'), ('name', '&DIM_a/../../../../x=1')):
+            for vec, extra in MATRIX_VECTORS:
                 case = {'app': 'single', 'kind': 'wms.getmap', 'path': '/service', 'qs': base + layer + extra,
-                        'attack': ['dimension-' + ('value' if vec == 'value' else 'key')], 'family': ['escape-matrix']}
+                        'attack': ['dimension-' + ('key' if 'name' in vec else 'value')], 'family': ['escape-matrix']}
                 v = run_case(env, case, stats, open_sigs=())
                 row[vec] = v.signature if v is not None else None
                 if v is not None:
@@ -1313,6 +1387,10 @@ def _fuzz_dictionary():
               '/wmts/', '/tms/1.0.0/', '/tiles/', '/kml/', '/demo/static/', '/app/', '/second/', '../', '/../', '..%2f', '%2e%2e',
               '%00', '&', '=', '/', '{ROOT}', '{ROOTREL}', '.png', '.jpeg', '.kml', 'origin=nw', 'QUERY_LAYERS=', 'default'):
         toks.add(v.encode())
+    for ch in (FW_SLASH, FW_BACKSLASH, FW_DOT, FW_PERCENT, ONE_DOT, TWO_DOT, ELLIPSIS, DIV_SLASH, FRAC_SLASH,
+               FW_SLASH + TWO_DOT, TWO_DOT + FW_SLASH, FW_SLASH + FW_DOT * 2):
+        toks.add(ch.encode('utf-8'))
+        toks.add(urllib.parse.quote(ch, safe='').encode())
     lines = []
     for t in sorted(toks):
         lines.append('"' + ''.join('\\x%02x' % b for b in t) + '"')
